@@ -83,6 +83,12 @@ type Explorer struct {
 	HostStringHook func(in *Interp, s string) Value
 	InterpretPkgs  []string // extra package path prefixes allowed for interpretation
 	EnvMax int
+	FallbackQueries, FallbackDecided int
+	TightenAbove int
+	Forks map[string]int
+	Redirects map[string]string // callee full name -> replacement (summary) full name
+	NoIfConv bool
+	IfConv int
 	Seed int
 	ByteLo, ByteHi int64
 	BufMaxLen int64
@@ -124,7 +130,7 @@ type Explorer struct {
 
 func NewExplorer(p *Program, harness string) *Explorer {
 	ex := &Explorer{P: p, Harness: harness, Stubs: Stubs{}, Known: map[string]bool{}, Workers: 8, SolverKind: "z3", TimeoutMS: 30000,
-		MaxDecisions: 400, MaxBlockVisits: 100000, MaxSteps: 30000000, MaxSplit: 5, MapOrderMax: 3, EnvMax: 12, ByteLo: 0, ByteHi: 127, BufMaxLen: 1<<31 - 1, SampleEvery: 1, MaxViolations: 8,
+		MaxDecisions: 400, MaxBlockVisits: 100000, MaxSteps: 30000000, MaxSplit: 5, MapOrderMax: 3, EnvMax: 12, TightenAbove: 12, ByteLo: 0, ByteHi: 127, BufMaxLen: 1<<31 - 1, SampleEvery: 1, MaxViolations: 8,
 		AssertsReached: map[string]int{}, KnownHits: map[string][]Violation{}, FuncsEncoded: map[string]int{}, HostCalls: map[string]int{},
 		StubsUsed: map[string]bool{}, LazyGlobals: map[string]bool{}, GlobalWrites: map[string]int{}}
 	ex.cond = sync.NewCond(&ex.mu)
@@ -146,6 +152,19 @@ func (ex *Explorer) noteLazyGlobal(g *ssa.Global) {
 func (ex *Explorer) noteHostCall(n string) {
 	ex.mu.Lock()
 	ex.HostCalls[n]++
+	ex.mu.Unlock()
+}
+func (ex *Explorer) noteFork(what string) {
+	ex.mu.Lock()
+	if ex.Forks == nil {
+		ex.Forks = map[string]int{}
+	}
+	ex.Forks[what]++
+	ex.mu.Unlock()
+}
+func (ex *Explorer) noteIfConv() {
+	ex.mu.Lock()
+	ex.IfConv++
 	ex.mu.Unlock()
 }
 func (ex *Explorer) noteOrderVar() {
@@ -270,6 +289,9 @@ func (ex *Explorer) worker(fn *ssa.Function) error {
 		}
 		ex.mu.Unlock()
 	}
+	if in.fallback != nil {
+		in.fallback.Close()
+	}
 	ex.mu.Lock()
 	ex.Queries += sol.Queries
 	ex.QSat += sol.Sat
@@ -379,6 +401,9 @@ func (in *Interp) runPath(fn *ssa.Function, trace []int) {
 	ex.mu.Lock()
 	defer ex.mu.Unlock()
 	ex.Paths++
+	if os.Getenv("GOSYM_PROGRESS") != "" && ex.Paths%50 == 0 {
+		fmt.Fprintf(os.Stderr, "progress: paths=%d queue=%d last_depth=%d last_end=%s\n", ex.Paths, len(ex.stack), len(in.taken), endKind)
+	}
 	ex.Steps += int64(in.steps)
 	ex.Decisions += len(in.taken)
 	if len(in.taken) > ex.MaxDepth {
